@@ -241,7 +241,20 @@ impl<'a> YamlEmitter<'a> {
                 Ok(())
             }
             Yaml::Value(Scalar::Integer(v)) => Ok(write!(self.writer, "{v}")?),
-            Yaml::Value(Scalar::FloatingPoint(ref v)) => Ok(write!(self.writer, "{v}")?),
+            Yaml::Value(Scalar::FloatingPoint(ref v)) => {
+                // Use spellings that are read back as floats: `.inf`/`.nan` for the special
+                // values and always a fraction or an exponent (`1.0`, `1e16`) for the others.
+                let v = v.into_inner();
+                if v.is_nan() {
+                    self.writer.write_str(".nan")?;
+                } else if v.is_infinite() {
+                    self.writer
+                        .write_str(if v > 0.0 { ".inf" } else { "-.inf" })?;
+                } else {
+                    write!(self.writer, "{v:?}")?;
+                }
+                Ok(())
+            }
             Yaml::Value(Scalar::Null) | Yaml::BadValue => Ok(write!(self.writer, "~")?),
             Yaml::Representation(ref v, style, ref tag) => {
                 if let Some(Tag {
